@@ -156,6 +156,9 @@ func (c *Case) Run(v *vm.Thread, events chan<- *ReportEvent, ctx context.Context
 	caseReport, ok = c.runBeforeEach(startTime, caseReport, v, events, ctx)
 	if !ok {
 		c.runAfterEach(startTime, caseReport, v)
+		if caseReport != nil {
+			events <- NewCaseReportEvent(caseReport, REPORT_FINISH_CASE)
+		}
 		return caseReport
 	}
 
